@@ -9,6 +9,7 @@ import (
 	"time"
 
 	apierrors "k8s.io/apimachinery/pkg/api/errors"
+	metav1 "k8s.io/apimachinery/pkg/apis/meta/v1"
 	"k8s.io/client-go/tools/leaderelection/resourcelock"
 
 	"github.com/kubewharf/kubebrain/pkg/backend/election"
@@ -70,8 +71,18 @@ func c14Scenario(c c14Cfg) *mc.Scenario {
 				id := fmt.Sprintf("cand%d", i)
 				rl := election.NewResourceLockManager(election.Config{Prefix: "/r", Identity: id, Timeout: time.Second}, d).GetResourceLock()
 				for r := 0; r < c.rounds; r++ {
-					rec := resourcelock.LeaderElectionRecord{HolderIdentity: id, LeaseDurationSeconds: 8, LeaderTransitions: r}
-					_, gerr := rl.Get()
+					// the record client-go's elector would write: a renewal keeps the acquire time and the
+					// transition count of the record it read and moves the renew time; a take-over counts a transition
+					now := metav1.NewTime(time.Unix(int64(1000+10*i+r), 0))
+					rec := resourcelock.LeaderElectionRecord{HolderIdentity: id, LeaseDurationSeconds: 8, RenewTime: now, AcquireTime: now}
+					old, gerr := rl.Get()
+					if gerr == nil && old != nil {
+						if old.HolderIdentity == id {
+							rec.AcquireTime, rec.LeaderTransitions = old.AcquireTime, old.LeaderTransitions
+						} else {
+							rec.LeaderTransitions = old.LeaderTransitions + 1
+						}
+					}
 					// what this candidate has now read (client-go acts on exactly this observation)
 					if v, ok := d.LastGet[vrt.CurName()+"|"+electionKey]; ok && gerr == nil {
 						observed[vrt.CurName()] = v
@@ -190,7 +201,7 @@ func init() {
 	mc.Register(&mc.Property{
 		ID:     "C14",
 		Level:  "model_checking",
-		Rule:   "every schedule (engine-call granularity; unbounded preemptions for 2 candidates x 1 round, preemption-bounded otherwise; happens-before state cache) of 2-3 candidates each running the acquire-or-renew step of client-go's elector (Get, then Create if absent else Update) on the real resource lock over one store, from an absent record and from a record held by a third identity, on memkv, badger and tikv-mock; oracle on the engine trace: at most one create takes effect, every update that takes effect was conditioned on exactly the bytes stored immediately before it, the record is never written unconditionally, and a candidate believes it won iff its write took effect",
+		Rule:   "every schedule (engine-call granularity; unbounded preemptions for 2 candidates x 1 round, preemption-bounded otherwise; happens-before state cache) of 2-3 candidates each running the acquire-or-renew step of client-go's elector (Get, then Create if absent else Update, with the record the elector would write: a renewal keeps acquire time and transition count, a take-over counts a transition) on the real resource lock over one store, from an absent record and from a record held by a third identity, on memkv, badger and tikv-mock; oracle on the engine trace: at most one create takes effect, every update that takes effect was conditioned on exactly the bytes stored immediately before it, the record is never written unconditionally, and a candidate believes it won iff its write took effect",
 		Assume: []string{"an engine call is one atomic step (scheduling point before each)", "lease-expiry timing of client-go's elector is not modelled: every candidate attempts to take the lock in every round"},
 		Scenarios: func(tier string) []*mc.Scenario {
 			var out []*mc.Scenario
